@@ -103,9 +103,20 @@ def wellformed_failure(c):
     return None
 
 
+class InputModified(Exception):
+    pass
+
+
 def run_impl(c):
     m = grm.Matcher(tolerance=c['tol'], min_weight=c['mw'], min_match=c['mm'])
-    return m.fastmatch(centers=c['pos'], refineds=c['pos'], peak_values=c['w'], peak_elevations=c['w'], zero=c['start'][0], a=c['start'][1], b=c['start'][2])
+    args = dict(centers=c['pos'].copy(), refineds=c['pos'].copy(), peak_values=c['w'].copy(), peak_elevations=c['w'].copy(),
+                zero=c['start'][0].copy(), a=c['start'][1].copy(), b=c['start'][2].copy())
+    before = {k: v.copy() for k, v in args.items()}
+    r = m.fastmatch(**args)
+    for k in args:
+        if not np.array_equal(args[k], before[k], equal_nan=True):
+            raise InputModified('fastmatch modified its argument `%s` in place' % k)
+    return r
 
 
 def stmt_failure(c):
